@@ -18,6 +18,9 @@
 // RFC 8017 RSASSA-PKCS1-v1_5 / RSASSA-PSS verification with the key's explicit salt length.
 // (r, n-s) is a valid ECDSA signature: the reference accepts it, so tink accepting it is not a violation.
 //
+// Further sections: key-encodings (keyenc.go: every byte-encoding shape of one mathematical key through every
+// bytes-taking constructor / proto parser) and tink-generated-keys (keygen.go: the createPrivateKey hooks).
+//
 // Don't-care cells (not judged): which error value is returned; parameter combinations the constructors
 // refuse (weak moduli, e != 65537, hash/curve mismatches); timing; what the monitoring logger sees;
 // keysets with more than one key (C05; except section legacy-adapter, see legacy.go, where the factory adapters for
@@ -1700,6 +1703,9 @@ func main() {
 			"prefix edits, LEGACY suffix confusion, other keys, modified messages) is decided by tink and by the strict reference verifier; decisions must be equal. "+
 			"Section legacy-adapter: keyset shape (single | primary at position 0..5 among 5 heterogeneous keys | forced RAW/prefix collision) x prefix type x key id for a custom key manager whose primitive is a raw stdlib Ed25519 signer/verifier "+
 			"(the factories' legacy-primitive adapters): byte-exact Sign oracle and union-of-keys Verify model over every message length 0..70 + long ones with the truncation / bit-flip / prefix / LEGACY-suffix / other-key catalogue. "+
+			"Section key-encodings: scheme x key of a chosen shape (private scalar with 0..3 leading zero octets / tiny, point with a short x or y; Ed25519 seeds / public keys beginning with zero octets; RSA numbers) x constructor path x encoding x variant; "+
+			"inside, every encoding shape (fixed, minimal, +1 zero, +4 zeros, minimal+1; mixed x/y pairs) of the SAME key is handed to every bytes-taking constructor / proto parser; whatever is accepted must sign, verify and interoperate as the mathematical key (reference-derived public key). "+
+			"Section tink-generated-keys: scheme x parameter point x variant x generation route; private/public pairing by the reference, Sign/Verify behaviour, requested parameters. "+
 			"An execution is non-trivial when Signer and Verifier were built and exercised; distinct = distinct choice vectors; evaluations = tink decisions compared.",
 		[]h.Section{
 			{Name: "ecdsa", Body: ecdsaSection, Bound: -1},
@@ -1708,5 +1714,7 @@ func main() {
 			{Name: "rsassapkcs1", Body: rsaSection(false), Bound: -1},
 			{Name: "rsassapss", Body: rsaSection(true), Bound: -1},
 			{Name: "legacy-adapter", Body: legacyAdapterSection, Bound: -1},
+			{Name: "key-encodings", Body: keyEncodingsSection, Bound: -1},
+			{Name: "tink-generated-keys", Body: generatedKeysSection, Bound: -1},
 		})
 }
